@@ -272,7 +272,7 @@ Proof.
   induction tfs as [|tf r IH]; intros id n Hok Hin; [contradiction|].
   inversion Hok as [|? ? Hok1 Hok2]; subst. cbn [add_in_trafs].
   destruct (tf_id tf =? id) eqn:Eid.
-  - cbn [orb]. destruct (add_to_traf_spec tf n s Hok1) as (Hi & Hs & Ht).
+  - destruct (add_to_traf_spec tf n s Hok1) as (Hi & Hs & Ht).
     destruct (add_to_traf tf n s) as [tf' n'] eqn:Ea. cbn [fst] in *.
     exists (tf' :: r), n'. split; [reflexivity|]. split; [constructor; assumption|].
     split; [cbn [map]; rewrite Hi; reflexivity|].
@@ -282,7 +282,6 @@ Proof.
     + apply N.eqb_eq in E'. subst id'. rewrite N.eqb_refl. cbn [option_map]. rewrite Hs. reflexivity.
     + assert (E2 : (id' =? tf_id tf) = false) by lia. rewrite E2. reflexivity.
   - cbn [map] in Hin. destruct Hin as [Hin | Hin]; [lia|].
-    destruct r as [|tf2 r2] eqn:Er; [contradiction|]. cbn [orb]. rewrite <- Er in *.
     destruct (IH id n Hok2 Hin) as (r' & n' & E & Hok' & Hids & Hrd). rewrite E.
     exists (tf :: r'), n'. split; [reflexivity|]. split; [constructor; assumption|].
     split; [cbn [map]; rewrite Hids; reflexivity|].
